@@ -244,6 +244,12 @@ func ruleSPLIT1(w *World) []Ob {
 					if lc, isC := x.X.(*ssa.Call); isC && sameVar(lc.Common().Args[0], sent) {
 						continue
 					}
+					// the block is kept as bytes and sent as string(buf): len(buf) != 0 is the same test
+					if cv, isCv := sent.(*ssa.Convert); isCv {
+						if lc, isC := x.X.(*ssa.Call); isC && (lc.Common().Args[0] == cv.X || sameVar(lc.Common().Args[0], cv.X)) {
+							continue
+						}
+					}
 				}
 				// builder.Len() != 0 on the builder whose String() is sent
 				if lc, isC := x.X.(*ssa.Call); isC && isBuilderMethod(lc, "Len") && builderOf(sent) != nil && sameObject(lc.Common().Args[0], builderOf(sent)) {
@@ -401,6 +407,17 @@ func ruleSPLIT1(w *World) []Ob {
 					}
 				}
 				return len(x.Edges) > 0
+			case *ssa.Call:
+				// bytes: append(append(buf, line...), '\n')
+				if isBuiltinCall(x, "append") && len(x.Common().Args) == 2 {
+					if elems, ok := variadicElems(x.Common().Args[1]); ok && len(elems) == 1 {
+						if k, isK := constInt(stripConv(elems[0])); isK && k == 10 {
+							if inner, ok := stripConv(x.Common().Args[0]).(*ssa.Call); ok && isBuiltinCall(inner, "append") && len(inner.Common().Args) == 2 && isScanLine(inner.Common().Args[1]) {
+								return true
+							}
+						}
+					}
+				}
 			}
 			return false
 		}
@@ -410,7 +427,7 @@ func ruleSPLIT1(w *World) []Ob {
 			if !ok {
 				continue
 			}
-			if b, isB := ph.Type().Underlying().(*types.Basic); !isB || b.Info()&types.IsString == 0 {
+			if b, isB := ph.Type().Underlying().(*types.Basic); (!isB || b.Info()&types.IsString == 0) && !isByteSlice(ph.Type()) {
 				continue
 			}
 			nBack, okAll := 0, true
